@@ -41,9 +41,30 @@ Probe ==
       << [a |-> "Register", signer |-> "O1", owner |-> "O1", order |-> "ORDERED", enc |-> "proto3"],
          [a |-> "OpenInit", signer |-> "X", owner |-> "O1", order |-> "UNORDERED", enc |-> "proto3json", cpport |-> "icahost"],
          [a |-> "Try", ca |-> 0], [a |-> "Try", ca |-> 1], [a |-> "Ack", ca |-> 0, cb |-> 0], [a |-> "Confirm", cb |-> 0],
+         [a |-> "Ack", ca |-> 1, cb |-> 1],      \* rejected: the first channel is OPEN
          [a |-> "SendTx", signer |-> "O1", owner |-> "O1", msgs |-> <<M("send", "self")>>, to |-> "short"],
          [a |-> "Wait"], [a |-> "Timeout", ca |-> 0, seq |-> 1],
          [a |-> "Ack", ca |-> 1, cb |-> 1], [a |-> "Confirm", cb |-> 1], [a |-> "CloseConfirm", cb |-> 0] >>]
+
+\* deterministic tour through every C38 clause (so that the vacuity floors never depend on the random walks)
+Tour ==
+    LET R(s, o, r, e) == [a |-> "Register", signer |-> s, owner |-> o, order |-> r, enc |-> e]
+        I(s, o, r, e, p) == [a |-> "OpenInit", signer |-> s, owner |-> o, order |-> r, enc |-> e, cpport |-> p]
+        T(s, o, l, t) == [a |-> "SendTx", signer |-> s, owner |-> o, msgs |-> l, to |-> t]
+        one == <<M("send", "self")>>
+    IN [kind |-> "ICA", cfg |-> "tour", acts |->
+      << R("O1", "O1", "ORDERED", "proto3"), R("X", "O1", "ORDERED", "proto3"),
+         [a |-> "InitOnHost", owner |-> "O1", order |-> "ORDERED", enc |-> "proto3"],
+         [a |-> "ForeignInit", owner |-> "O1"], [a |-> "TryOnController", owner |-> "O1", cb |-> 0],
+         [a |-> "Try", ca |-> 0], [a |-> "Ack", ca |-> 0, cb |-> 0], [a |-> "Ack", ca |-> 0, cb |-> 1],
+         R("O1", "O1", "ORDERED", "proto3"), [a |-> "Confirm", cb |-> 1],
+         T("X", "O1", one, "long"), T("O1", "O1", <<M("send", "self"), M("delegate", "self")>>, "long"), [a |-> "Recv", ca |-> 0, seq |-> 1],
+         T("O2", "O2", one, "long"), T("O1", "O1", one, "short"), [a |-> "Wait"], [a |-> "Recv", ca |-> 0, seq |-> 2],
+         [a |-> "Timeout", ca |-> 0, seq |-> 2], T("O1", "O1", one, "long"),
+         I("X", "O1", "UNORDERED", "proto3", "icahost"), R("O1", "O1", "ORDERED", "proto3json"), I("O1", "O1", "ORDERED", "proto3", "other"),
+         I("X", "O1", "ORDERED", "proto3", "icahost"), [a |-> "Try", ca |-> 1], [a |-> "CloseConfirm", cb |-> 1], [a |-> "Try", ca |-> 1],
+         [a |-> "Ack", ca |-> 1, cb |-> 2], [a |-> "Confirm", cb |-> 2], T("O1", "O1", one, "long"),
+         [a |-> "Recv", ca |-> 1, seq |-> 1], [a |-> "Recv", ca |-> 1, seq |-> 1] >>]
 
 \* The enumeration is unrolled by TLC's own next-state relation (one case per step, one behaviour per allow list and chunk).
 VARIABLES S, acts, i, al, k, cases
@@ -66,5 +87,6 @@ Next ==
 Spec == Init /\ [][Next]_<<S, acts, i, al, k, cases>>
 
 ASSUME JsonSerialize(OutDir \o "/probe.json", Probe)
+ASSUME JsonSerialize(OutDir \o "/tour.json", Tour)
 ASSUME PrintT(<<"ENUMERATED", Cardinality(Lists)>>)
 =============================================================================
